@@ -196,11 +196,36 @@ def sample(ctx, budget=1.0, hint=None, broken=None):
         if path is None or len(path) == 0:
             continue
         # optional mutation history first: the d-string must describe the CURRENT segments
-        if r.random() < 0.2:
+        if r.random() < 0.3:
+            # queries first (they may fill whatever the path caches: end points, closedness, a first d-string, lengths),
+            # then an edit through the path's own interface
+            for q_ in r.sample(['ends', 'closed', 'd', 'length', 'none'], r.randint(0, 2)):
+                try:
+                    if q_ == 'ends':
+                        path.start, path.end
+                    elif q_ == 'closed':
+                        path.iscontinuous() and path.isclosed()
+                    elif q_ == 'd':
+                        path.d(use_closed_attrib=True)
+                    elif q_ == 'length':
+                        path.length()
+                except Exception:
+                    pass
+            how = r.choice(['set', 'set', 'pop', 'append', 'setlast', 'insert0'])
             j = r.randrange(len(path))
             z = path[j].end + complex(3.5, -20.25)
-            new = P.Line(path[j].start, z)
-            path[r.choice([j, j - len(path)])] = new
+            if how == 'set':
+                path[r.choice([j, j - len(path)])] = P.Line(path[j].start, z)
+            elif how == 'pop' and len(path) > 1:
+                path.pop()                      # e.g. the closing line of a closed path
+            elif how == 'append':
+                path.append(P.Line(path[-1].end, path[-1].end + complex(-7.25, 2.5)))     # a tail after a closed outline
+            elif how == 'setlast':
+                last = path[-1]
+                path[-1] = P.Line(last.start, last.end + complex(1.5, 1.25)) if isinstance(last, P.Line) else \
+                    P.CubicBezier(last.start, last.start + 1, last.start + 2j, last.end + complex(2.5, -0.5))
+            else:
+                path.insert(0, P.Line(path[0].start + complex(-4.5, 3.25), path[0].start))
         n_eval += 1
         try:
             closed = path.iscontinuous() and path.isclosed()
@@ -290,7 +315,7 @@ def sample(ctx, budget=1.0, hint=None, broken=None):
     return {'evaluations': n_eval * 8, 'distinct_nontrivial': len(nontriv), 'failures': fails, 'samples': samples,
             'rule': 'random paths (1-3 subpaths; open / closed by a line / closed by a curve / revisiting the start; smooth joints built with the '
                     'parser\'s expression and with a differently rounded one; arcs incl. auto-enlarged radii and rotations outside [0,360); number '
-                    'classes int/half/tiny/huge/generic), optionally mutated through item assignment first, x all 8 option sets. '
+                    'classes int/half/tiny/huge/generic), optionally queried (end points, closedness, a first d(), length) and then edited (item assignment, pop, append, insert) first, x all 8 option sets. '
                     'distinct = distinct (number class, closed?, kind of last segment, several subpaths?)'}
 
 
